@@ -233,6 +233,17 @@ pub fn standard(quick: bool, scale: i32) -> Vec<Slice> {
         len4: if quick { 3 } else { 4 },
         extra_rules: gram::REDEX_EXTRA_RULES, explicit_inputs: None
     });
+    v.push(Slice {
+        whole_grammars: false,
+        extra_alpha: vec!['A', '-'],
+        name: "literal-pairs".into(),
+        frames: gram::frames(false, false).into_iter().filter(|f| f.sdef == 0 && f.ws <= 1 && (f.ty == 0 || f.ty == 2) && (f.ws == 0 || f.ty == 0)).collect(),
+        bodies: Rc::new(gram::literal_pair_bodies()),
+        len: 3,
+        len4: 3,
+        extra_rules: "",
+        explicit_inputs: None,
+    });
     {
         let (grammars, inputs) = gram::long_token_cases();
         v.push(Slice {
@@ -273,6 +284,17 @@ pub fn small(quick: bool) -> Vec<Slice> {
     });
     let redex: Vec<String> = gram::redex_bodies(if quick { 4 } else { 7 }).into_iter().map(|x| x.0).collect();
     v.push(Slice { whole_grammars: false, extra_alpha: vec![], name: "redexes".into(), frames: gram::frames(false, false).into_iter().filter(|f| !quick || f.sdef == 0).collect(), bodies: Rc::new(redex), len: if quick { 3 } else { 4 }, len4: 3, extra_rules: gram::REDEX_EXTRA_RULES, explicit_inputs: None });
+    v.push(Slice {
+        whole_grammars: false,
+        extra_alpha: vec!['A', '-'],
+        name: "literal-pairs".into(),
+        frames: gram::frames(false, false).into_iter().filter(|f| f.sdef == 0 && f.ws <= 1 && (f.ty == 0 || f.ty == 2) && (f.ws == 0 || f.ty == 0)).collect(),
+        bodies: Rc::new(gram::literal_pair_bodies()),
+        len: 3,
+        len4: 3,
+        extra_rules: "",
+        explicit_inputs: None,
+    });
     {
         let (grammars, inputs) = gram::long_token_cases();
         v.push(Slice {
